@@ -29,10 +29,12 @@ def classify_build(out, feats):
     where = re.search(r"(gen/[\w/]+/|cmd/[\w-]+/|\w+\.go)", first)
     area = "/".join(where.group(1).strip("/").split("/")[-2:]) if where else "?"
     if feats.get("risky"):
-        kind = ("redeclared" if "redeclared" in msg else "no-new-variables" if "no new variables" in msg else
+        kind = ("redeclared" if ("redeclared" in msg or "other declaration of" in msg) else "no-new-variables" if "no new variables" in msg else
                 "selector-on-shadowed-name" if re.search(r"\w+\.\w+ undefined", msg) else "type-mismatch" if "cannot use" in msg else
                 "invalid-operation" if "invalid operation" in msg else "undefined-name" if "undefined:" in msg else "declared-and-not-used" if "declared and not used" in msg else "other: " + msg[:60])
-        return "build/attribute-named-%s/%s/%s" % (feats["risky"], area.split("/")[-1], kind)
+        # identified by the attribute name (the failing input); where and how the collision shows depends on the rest of the design
+        feats["risky_symptom"] = "%s/%s" % (area.split("/")[-1], kind)
+        return "build/attribute-named-%s" % feats["risky"]
     prefix = "build/nested-inline-object" if feats["nested_inline"] else "build"
     return "%s/%s: %s" % (prefix, re.sub(r"(front|svc|store|calc|goals)", "S", area), msg)
 
